@@ -269,6 +269,13 @@ def normalizeStringForPostscript(s, allowSpaces=True):
             c = unicodedata.normalize("NFKD", c)
             if not set(c) < _postscriptFontNameAllowed:
                 c = c.encode("ascii", errors="replace").decode()
+            # the decomposition itself may contain characters that are not allowed
+            c = "".join(
+                x
+                for x in c
+                if x not in _postscriptFontNameExceptions
+                and (allowSpaces or x in _postscriptFontNameAllowed)
+            )
         normalized.append(c)
     return "".join(normalized)
 
